@@ -326,8 +326,45 @@ fn norm_atom(s: &str) -> String {
     s.split_whitespace().take(3).collect::<Vec<_>>().join(" ")
 }
 
+/// Postgres has a serial form for smallint / integer / bigint only: `auto_increment()` on a column of any
+/// other type cannot be expressed, and the builder refuses it (it panics). A rendering that simply leaves
+/// the auto-increment out would be a silent loss of a declared specification.
+fn undeclarable_auto_increment(d: Dialect, s: &S) -> Option<String> {
+    if d != Dialect::Postgres {
+        return None;
+    }
+    let bad = |c: &Col| c.has(|x| *x == CS::AutoInc) && !matches!(c.ty, Ty::SmallInt | Ty::Int | Ty::BigInt);
+    match s {
+        S::Create(t) => t.cols.iter().find(|c| bad(c)).map(|c| c.name.clone()),
+        S::Alter(_, opts) => opts.iter().find_map(|o| match o {
+            AlterOpt::AddColumn(c, _) if bad(c) => Some(c.name.clone()),
+            _ => None,
+        }),
+        _ => None,
+    }
+}
+
 pub fn check_stmt(ctx: &Ctx, rep: &mut Report, n: u64, d: Dialect, s: &S, label: &str) {
     rep.eval();
+    if let Some(col) = undeclarable_auto_increment(d, s) {
+        match guard(|| s.actual(d)) {
+            Err(_) => rep.count("refusals_observed", 1),
+            Ok(sql) => {
+                let serial = sql.to_ascii_lowercase().contains("serial");
+                if !serial {
+                    rep.violation(
+                        "R.ddl-structure",
+                        d.name(),
+                        format!("{}: auto_increment on a type without a serial form is left out instead of refused", s.kind()),
+                        json!({"column": col, "sql": sql}),
+                        ctx.shard,
+                        n,
+                    );
+                }
+            }
+        }
+        return;
+    }
     let cx = DdlCtx { custom_types: vec!["mood".into(), "geometry".into(), "citext".into()] };
     let reference = s.reference(d);
     let want = match parse(d, &reference, &cx) {
@@ -440,6 +477,10 @@ fn random_col(rng: &mut Rng, d: Dialect, name: &str) -> Col {
     }
     if rng.chance(1, 12) {
         specs.push(CS::Generated("c0".into(), d == Dialect::Postgres || rng.coin()));
+    }
+    if d == Dialect::Postgres && matches!(ty, Ty::TinyInt | Ty::TinyU | Ty::SmallU | Ty::Unsigned | Ty::BigU | Ty::Text | Ty::Uuid) && rng.chance(1, 10) && !specs.contains(&CS::AutoInc) {
+        // (undeclarable on Postgres: the builder refuses it, see undeclarable_auto_increment)
+        specs.push(CS::AutoInc);
     }
     Col { name: name.into(), ty, specs }
 }
